@@ -119,7 +119,8 @@ def parseOp (s : St) (toks : List String) : Option Op :=
   | "start" => some .start
   | "stop" => some .stop
   | "verify" => some .verify
-  | "obs" | "announce" | "diskcheck" | "magnet" => some .nop
+  | "obs" | "announce" | "diskcheck" | "magnet" | "crashcheck" => some .nop
+  | "persist" => some .persist
   | "mutate" =>
     let file := if kvStr toks "file" = "all" then none else some (kvNat toks "file")
     let how := match kvStr toks "how" with
@@ -193,6 +194,7 @@ def renderObs (s : St) (verdict : String) (outs : List Out) (impl : List (String
     | "dl" => dlTok
     | "idl" => joinOrDash (s.idls.map fun d => toString d.k)
     | "dials" => toString s.dials
+    | "crash" => "ok"
     | "pexon" => joinOrDash ((s.peers.filter (·.pexOn)).map fun p => toString p.k)
     | "pid" => if s.cfg.isPrivate && s.infoAtAdd then "priv" else "pub"
     | "magnet" => if s.info && s.cfg.isPrivate then "refused" else "ok"
@@ -283,7 +285,15 @@ def oracles (prev s : St) (impl : List (String × String)) (prevDials : Nat := 0
             if msg.startsWith "exths:" && (msg.splitOn "v=PrivClient_1").length < 2 then some "C19 private-torrent-public-client-version" else none
         else []
       else [])
-  c01a ++ c01b ++ c01c ++ c04 ++ c10 ++ c17 ++ c19
+  -- C05: a restart from the resume data and disk as they are now must not treat unwritten pieces as held
+  let c05 := if get "crash" ≠ "" && get "crash" ≠ "ok" then [s!"C05 restart-claims-more-than-disk crash={get "crash"}"] else []
+  -- C13 (progress, safety form): a free metadata-download slot and an eligible peer that is not used
+  let c13 :=
+    if !s.info && s.status = .dlmeta && (s.idls.filter (fun d => !d.snub)).length < s.parMeta then
+      (s.peers.filter fun p => p.extHS && p.extMeta && p.extSize ≠ 0 && p.extSize ≤ s.maxMeta && !(s.idls.any (·.k = p.k))).map
+        fun p => s!"C13 idle-metadata-source peer={p.k}"
+    else []
+  c01a ++ c01b ++ c01c ++ c04 ++ c10 ++ c17 ++ c19 ++ c05 ++ c13
 
 /-- C04: after the final phase (restart + honest seed answering every request) the torrent must be
 complete with correct files. -/
@@ -303,6 +313,10 @@ def stepDriver (d : DSt) (op implObs : String) : DSt × String × List String :=
     let c := parseNew toks
     let (v, impl) := splitObs implObs
     let s := initSt c (kvStr toks "magnet" = "1")
+    let seeded := kvStr toks "seeded" = "1"
+    let s := if seeded then { s with known := c.flens.map (fun _ => true), fileExists := c.flens.map (fun _ => true), bad := [] } else s
+    let s := { s with nUnchoke := ((kv? toks "cfg.UnchokedPeers").bind (·.toNat?)).getD 3,
+                      nOptimistic := ((kv? toks "cfg.OptimisticUnchokedPeers").bind (·.toNat?)).getD 1 }
     let s := { s with infoAtAdd := kvStr toks "magnet" ≠ "1", isize := (((impl.find? fun (k, _) => k = "isize").bind fun (_, x) => x.toNat?)).getD 0,
                       maxMeta := ((kv? toks "cfg.MaxMetadataSize").bind (·.toNat?)).getD 31457280,
                       parMeta := ((kv? toks "cfg.ParallelMetadataDownloads").bind (·.toNat?)).getD 2 }
@@ -332,6 +346,22 @@ def stepDriver (d : DSt) (op implObs : String) : DSt × String × List String :=
     match st1.panicked with
     | some why => ({ d with s := some st1, knownPeers := known }, "model-panic:" ++ why, [s!"C04 model-predicts-panic why={why.replace " " "_"}"])
     | none =>
+      -- the allowed-fast set sent to a peer depends on a SHA-1 of its address: taken from the implementation,
+      -- checked for admissibility (distinct, in range, at most `AllowedFastSet` many)
+      let (st1, afErrs) := impl.foldl (fun (acc : St × List String) (kv : String × String) =>
+        let (st, errs) := acc
+        let (k, v) := kv
+        if k.startsWith "p" && (k.drop 1).toString.toNat?.isSome then
+          let pk := (k.drop 1).toString.toNat?.getD 0
+          let idx := (commaList v).filterMap fun msg =>
+            match msg.splitOn ":" with
+            | ["allowedfast", i] => i.toNat?
+            | _ => none
+          if idx.isEmpty then (st, errs) else
+          let bad := idx.any (· ≥ st.n) || idx.eraseDups.length ≠ idx.length || idx.length > st.cfg.afK || !st.loaded
+          (st.updPeer pk fun p => { p with sentAF := p.sentAF ++ idx },
+           if bad then errs ++ [s!"C03 allowed-fast-set-inadmissible peer={pk}"] else errs)
+        else (st, errs)) (st1, [])
       let implDl := parseDl (((impl.find? fun (k, _) => k = "dl").map (·.2)).getD "-")
       let (st2, errs) := reconcile st1 implDl
       let implIdl := (commaList (((impl.find? fun (k, _) => k = "idl").map (·.2)).getD "-")).map parseNat!
@@ -340,7 +370,7 @@ def stepDriver (d : DSt) (op implObs : String) : DSt × String × List String :=
                    else "inadmissible[" ++ (";".intercalate errs).replace " " "_" ++ "]"
       -- C17: a connection whose handshake failed must be closed, not kept
       let c17hs := if toks.headD "" = "peer" && implVerdict = "refused" then ["C17 failed-handshake-socket-left-open"] else []
-      let viol := oracles s st2 impl d.implDials ++ finalOracle st2 op impl ++ c17hs ++ errs.map (fun e => "C09 picker-choice-inadmissible " ++ e.replace " " "_")
+      let viol := afErrs ++ oracles s st2 impl d.implDials ++ finalOracle st2 op impl ++ c17hs ++ errs.map (fun e => "C09 picker-choice-inadmissible " ++ e.replace " " "_")
         ++ errsI.map (fun e => "C13 metadata-download-inadmissible " ++ e.replace " " "_")
       let implDials := (((impl.find? fun (k, _) => k = "dials").bind fun (_, x) => x.toNat?)).getD d.implDials
       ({ s := some st2, parked := parked, implDials := implDials, knownPeers := known }, renderObs st2 r.verdict outs1 impl dlTok, viol)
